@@ -107,21 +107,37 @@ Section Main.
     { destruct d; try contradiction; exact Hg. }
     clear Hg. unfold gen_composite in Hgc. cbn [q_fixed_typename no_quirks] in Hgc.
     set (hasTn := match first_typename sels with Some _ => true | None => false end) in *.
-    destruct (loop no_quirks S fragTypes (gen fuel) mm d hasTn sels sels ([], [], [], st)) as [[[[fields conds] done] st1]| | |] eqn:Eloop; try discriminate.
+    destruct (loop no_quirks S fragTypes (gen fuel) mm d hasTn sels sels ([], [], [], [], st)) as [[[[[fields conds] done] fdone] st1]| | |] eqn:Eloop; try discriminate.
+    assert (Hsamef : forall a f sub a2 f2 sub2, In (SField a f sub) sels -> In (SField a2 f2 sub2) sels ->
+                                                sel_key a f = sel_key a2 f2 -> f = f2).
+    { intros a f sub a2 f2 sub2 H1 H2 E.
+      assert (D1 : In (sel_key a f, f) (direct_fields sels)).
+      { unfold direct_fields. apply in_flat_map. exists (SField a f sub). split; [exact H1 | left; reflexivity]. }
+      assert (D2 : In (sel_key a2 f2, f2) (direct_fields sels)).
+      { unfold direct_fields. apply in_flat_map. exists (SField a2 f2 sub2). split; [exact H2 | left; reflexivity]. }
+      destruct (Hnd _ _ _ _ D1 D2) as [_ Ef]; [rewrite E; reflexivity | exact Ef]. }
     (* the recursive calls *)
     assert (Hrec : forall mm' sub st0 core0 b0 st0',
                sub_call S mm sels mm' sub -> gen fuel mm' sub st0 = Ok (core0, b0, st0') ->
                b0 = true /\ ExtC st0 st0' /\ TyOKC frs st0' core0 /\ GoodD S frs mm' sub core0).
     { intros mm' sub st0 core0 b0 st0' Hsc Hg0. rewrite forallb_forall in Hall.
-      destruct Hsc as [[a [f [Hs [Htnf [ft [Eft Eu]]]]]]|[c [sub0 [Hs [Emm Esub]]]]].
+      destruct Hsc as [[a [f [sub1 [Hs [Htnf [Esub [ft [Eft Eu]]]]]]]]|[c [sub0 [Hs [Emm Esub]]]]].
       - pose proof (Hall _ Hs) as Has. cbv beta iota in Has. rewrite Htnf, Eft, Eu in Has.
         pose proof (Hloc _ Hs) as Hsl. simpl in Hsl. rewrite Htnf, Eft, Eu in Hsl.
         destruct (composite S mm') eqn:Ecomp.
-        + destruct (IH sub) with (fuel := fuel) (mm := mm') (st := st0) (core := core0) (b := b0) (st' := st0') (f' := f')
+        + rewrite <- Esub in Has.
+          destruct (IH sub) with (fuel := fuel) (mm := mm') (st := st0) (core := core0) (b := b0) (st' := st0') (f' := f')
             as (H1 & H2 & H3 & H4 & _); try assumption.
-          * pose proof (sels_size_In _ _ Hs) as Hle. rewrite sel_size_field in Hle. lia.
+          * rewrite Esub. pose proof (merged_field_size_lt (sel_key a f) sels a f sub1 Hs eq_refl). lia.
           * split; [exact H1|]. split; [exact H2|]. split; [exact H3 | exact H4].
-        + apply andb_true_iff in Hsl as [Hnil Hleaf]. destruct sub; [|discriminate].
+        + (* a leaf field: every selection of its key has no sub-selection *)
+          apply andb_true_iff in Hsl as [Hnil Hleaf].
+          assert (Esn : sub = []).
+          { rewrite Esub. apply merged_field_nil. intros a2 f2 sub2 Hs2 Ek.
+            assert (Ef2 : f2 = f) by (apply (Hsamef a2 f2 sub2 a f sub1 Hs2 Hs); exact Ek). subst f2.
+            pose proof (Hloc _ Hs2) as Hsl2. simpl in Hsl2. rewrite Htnf, Eft, Eu, Ecomp in Hsl2.
+            apply andb_true_iff in Hsl2 as [Hn2 _]. destruct sub2; [reflexivity | discriminate]. }
+          subst sub. rewrite Esn in Hg0 |- *.
           apply (gen_leaf_good fuel mm' st0 core0 b0 st0' Hleaf Ecomp Hg0).
       - pose proof (Hall _ Hs) as Has. cbv beta iota zeta in Has. rewrite <- Emm, <- Esub in Has.
         destruct (IH sub) with (fuel := fuel) (mm := mm') (st := st0) (core := core0) (b := b0) (st' := st0') (f' := f')
@@ -133,10 +149,10 @@ Section Main.
       destruct (find_frag frs f) as [fr|] eqn:Ef; [|discriminate]. destruct (find_frag_In _ _ Ef) as [H1 H2].
       rewrite <- H2. apply in_map. exact H1. }
     pose proof (loop_inv S frs (GoodD S frs) (TyOKC frs) ExtC ExtC_refl ExtC_trans (TyOKC_ext frs) (TyOKC_string frs)
-                         (TyOKC_fragref frs) (TyOKC_ptr frs) (TyOKC_wrap frs) (gen fuel) mm d sels hasTn Hrec Hl Hmem Hspreads Hloc
-                         st sels [] ([], [], [], st) (fields, conds, done, st1) eq_refl
+                         (TyOKC_fragref frs) (TyOKC_ptr frs) (TyOKC_wrap frs) (gen fuel) mm d sels hasTn Hrec Hl Hmem Hspreads Hsamef Hloc
+                         st sels [] ([], [], [], [], st) (fields, conds, done, fdone, st1) eq_refl
                          (inv_init S frs (GoodD S frs) (TyOKC frs) ExtC ExtC_refl mm sels st) Eloop) as HInv.
-    unfold Inv in HInv. destruct HInv as (I1 & I2 & I3 & I4 & I5 & I6 & I7).
+    unfold Inv in HInv. destruct HInv as (I1 & I2 & I3 & I4 & I5 & I8 & I6 & I7).
     assert (F3 : forall k T dash, In (k, (T, dash)) fields -> entry_src S (GoodD S frs) mm sels sels k T dash) by (intros k T dash H; apply (I3 _ _ _ H)).
     assert (F3' : forall k T dash, In (k, (T, dash)) fields -> TyOKC frs st1 T) by (intros k T dash H; apply (I3 _ _ _ H)).
     assert (F4 : forall s, In s sels -> entry_cov S (GoodD S frs) mm sels fields s) by (intros s H; apply (I4 _ H)).
